@@ -368,6 +368,10 @@ Definition std_sr (h : hdr) (s : sst) : res N * sst :=
 
 Definition std_leaves : leafdec := mkLD std_kind std_r std_sr.
 
+(* the "non-matching children box sizes" error lists the children: a loop of at most 32 iterations + 1
+   (681e0c4; the pinned text concatenated one string per child: quadratic, found by the mutation search) *)
+Definition err_msg_ticks : N := 33.
+
 (* ------------------------------------------------------------------ SR: DecodeBoxSR + DecodeContainerChildrenSR *)
 Section Loops.
 Variable ld : leafdec.
@@ -411,7 +415,7 @@ with children_sr (fuel : nat) (startPos pos endPos : N) (initPos : Z) (acc : lis
   match fuel with
   | O => (OutOfFuel, s)
   | S f =>
-      if (endPos <? pos)%N then (Err, s)
+      if (endPos <? pos)%N then (Err, scharge (tick err_msg_ticks) s)
       else if (pos =? endPos)%N then (Ok (rev acc), s)
       else
         match dec_box_sr f pos (scharge (tick 1) s) with
@@ -421,7 +425,7 @@ with children_sr (fuel : nat) (startPos pos endPos : N) (initPos : Z) (acc : lis
             let relPosFromSize := rpos (sr s2) - initPos in
             if int_of_u64 (subu64 pos' startPos) =? relPosFromSize
             then children_sr f startPos pos' endPos initPos (child :: acc) s2
-            else (Err, s2)
+            else (Err, s2)                     (* fmt.Errorf with two numbers: constant *)
         | (Err, s1) => (Err, s1) | (Panic, s1) => (Panic, s1) | (OutOfFuel, s1) => (OutOfFuel, s1)
         end
   end.
@@ -471,7 +475,7 @@ with children_r (fuel : nat) (pos endPos : N) (acc : list tree) (s : ist) {struc
   | S f =>
       (* 9d05608: position compared with the container end BEFORE decoding a child *)
       if (pos =? endPos)%N then (Ok (rev acc), s)
-      else if (endPos <? pos)%N then (Err, s)
+      else if (endPos <? pos)%N then (Err, icharge (tick err_msg_ticks) s)
       else
         match dec_box_r f pos (icharge (tick 1) s) with
         | (Ok BEof, s1) => (Ok (rev acc), s1)          (* err == io.EOF: return children, nil *)
